@@ -829,6 +829,100 @@ fn bias_audit_kit<K: Kit>(tier: &'static str) -> Report {
 }
 
 // ----------------------------------------------------------------------------------------------
+// C15 under a deadline that passes in the middle of an iteration: for every short sample sequence
+// and EVERY callback index of its execution the logical clock is jumped past the deadline inside that
+// callback (one deviation per execution). Whatever the planner does with the interrupted iteration,
+// the tree it leaves behind must satisfy the invariants - an edge whose motion check was cut short
+// must not be in it.
+
+fn c15_landings<K: Kit>(tier: &'static str, idx: usize, sc: &Scenario, rep: &mut Report) {
+    use crate::seams;
+    let b = base_of(sc.kit);
+    let depth = if tier == "quick" { 2 } else { 3 };
+    crate::explore::for_each_seq(&b.sub4, depth, &[], |seq| {
+        let refrun = crate::explore::guarded(|| {
+            let mut rig = Rig::<K>::new(sc, true);
+            let base = seams::seq_now();
+            rig.space.push_script(seq);
+            let _ = rig.drv.solve(crate::drv::iters(seq.len()));
+            (base, seams::seq_now())
+        });
+        let Ok((base, n)) = refrun else { return };
+        for j in base..n {
+            c15_one_landing::<K>(tier, idx, sc, seq, j, rep);
+        }
+    });
+}
+
+fn c15_one_landing<K: Kit>(tier: &'static str, idx: usize, sc: &Scenario, seq: &[u8], j: u64, rep: &mut Report) {
+    use crate::seams;
+    crate::explore::watch_desc(|| format!("{{\"scenario\": {:?}, \"samples\": {:?}, \"deadline_lands_in_callback\": {j}}}", sc.tag, seq));
+    crate::props_deep::set_current(Some(json!({"mode": "deadline-landing", "scenario_index": idx, "samples": seq, "landing_callback": j})));
+    let run = crate::explore::guarded(|| {
+        let mut rig = Rig::<K>::new(sc, true);
+        rig.logging(true);
+        let pre = rig.snapshot();
+        oxmpl::verif::clock_reset(0);
+        seams::set_landing(j);
+        let mut script = seq.to_vec();
+        script.extend_from_slice(&[seq[0]; 3]);
+        rig.space.push_script(&script);
+        let cb_before = seams::cb_counts();
+        let r = rig.drv.solve(std::time::Duration::from_secs(1));
+        let cb_after = seams::cb_counts();
+        let post = rig.snapshot();
+        (rig, pre, post, r, cb_before, cb_after)
+    });
+    match run {
+        Err(Caught::Panic(msg)) => {
+            let loc = msg.rsplit(" @ ").next().unwrap_or("").to_string();
+            rep.violate(format!("C15|{}|panic:{loc}", sc.params.pk.name()), format!("planner call unwound: {msg}"), || json!({"kind": "deep", "prop": "C15", "tier": tier, "deep": crate::props_deep::current(), "scenario": sc.json(), "panic": msg}));
+        }
+        Err(_) => {} // the landing preceded the call's timer (script exhausted): void
+        Ok((rig, pre, post, result, cb_before, cb_after)) => {
+            if seams::landed().is_some() {
+                rep.count("deadline_landings_checked", 1);
+                rep.count("traces_validated", 1);
+                let st = Step { sc, hist: seq, letter: 255, pre: &pre, post: &post, result: &result, rig: &rig, log_mark: 0, cb_before, cb_after, used: seq.len(), batch: true };
+                c15::<K>(tier, idx, &st, rep);
+            }
+        }
+    }
+    crate::props_deep::set_current(None);
+}
+
+pub fn replay_landing(tier: &'static str, d: &Value) -> i32 {
+    let idx = d["scenario_index"].as_u64().unwrap_or(0) as usize;
+    let seq: Vec<u8> = d["samples"].as_array().map(|a| a.iter().map(|x| x.as_u64().unwrap_or(0) as u8).collect()).unwrap_or_default();
+    let j = d["landing_callback"].as_u64().unwrap_or(0);
+    let all = scenarios("C15", tier);
+    let Some(sc) = all.get(idx) else {
+        crate::report::out("ENGINE-ERROR: replay refers to a scenario outside the lattice");
+        return 2;
+    };
+    let run = || {
+        let mut rep = Report::new();
+        with_kit!(sc.kit, c15_one_landing(tier, idx, sc, &seq, j, &mut rep));
+        rep
+    };
+    let (r1, r2) = (run(), run());
+    if r1.viol_counts.keys().collect::<Vec<_>>() != r2.viol_counts.keys().collect::<Vec<_>>() {
+        crate::report::out("ENGINE-ERROR: replay is not deterministic");
+        return 2;
+    }
+    if r1.viol_counts.is_empty() {
+        crate::report::out("replay: property C15 holds on this execution");
+        0
+    } else {
+        for v in &r1.violations {
+            crate::report::out(&format!("replay: {} -- {}", v.key, v.what));
+        }
+        crate::report::out("VIOLATION property=C15 replay=(replayed)");
+        1
+    }
+}
+
+// ----------------------------------------------------------------------------------------------
 // driver
 
 fn on_caught_for<'a>(prop: &'static str, tier: &'static str, idx: usize, sc: &'a Scenario) -> impl Fn(&[u8], u8, Caught, &mut Report) + Sync + 'a {
@@ -913,7 +1007,7 @@ pub fn run(prop: &'static str, tier: &'static str) -> i32 {
         }
     }
     let must: Vec<&str> = match prop {
-        "C15" => vec!["states_after_success", "states_after_timeout", "edges_checked", "zero_length_edges", "deep_runs"],
+        "C15" => vec!["states_after_success", "states_after_timeout", "edges_checked", "zero_length_edges", "deep_runs", "deadline_landings_checked"],
         "C16" => vec!["nodes_added", "nothing_added", "bias0_iterations", "bias1_iterations", "connect_direct_goal_hit", "connect_joined_growing_start", "connect_joined_growing_goal", "connect_first_extension_failed", "bias_audit_coin_flips"],
         "C17" => vec!["rewires", "non_nearest_parent_chosen", "choose_parent_with_alternatives", "versus_paths_compared", "versus_star_strictly_shorter", "versus_seeded_runs"],
         _ => vec![],
@@ -923,6 +1017,20 @@ pub fn run(prop: &'static str, tier: &'static str) -> i32 {
         rep.count("traces_validated", n);
         // supplementary: deep seeded executions (trees of hundreds of nodes) under the same invariants
         rep.merge(crate::props_deep::run("C15", tier));
+        // the deadline passing inside every callback of short executions (one world with an obstacle)
+        let land: Vec<(usize, &Scenario)> = all.iter().enumerate().filter(|(_, s)| s.world.name == "subset0001" && s.goal_root == 0 && s.params.bias < 1.0).collect();
+        let lr = land
+            .par_iter()
+            .map(|(i, sc)| {
+                let mut r = Report::new();
+                with_kit!(sc.kit, c15_landings(tier, *i, sc, &mut r));
+                r
+            })
+            .reduce(Report::new, |mut a, b| {
+                a.merge(b);
+                a
+            });
+        rep.merge(lr);
     }
     let meta = CheckMeta {
         prop,
